@@ -326,6 +326,13 @@ func PlaySched(beh M) ([]M, error) {
 		defer lis2.Close()
 	}
 
+	// ... and now and then a TCP listener of its own (ListenAndServe on a free loopback port) next to them
+	var served3 chan error
+	if I(beh, "_i")%8 == 5 {
+		served3 = make(chan error, 1)
+		go func() { served3 <- x.Srv.ListenAndServe("127.0.0.1:0") }()
+	}
+
 	// connections: startup, and a prepared portal "p", outside schedule control
 	s.mu.Lock()
 	s.free = true
@@ -611,6 +618,14 @@ func PlaySched(beh M) ([]M, error) {
 			if wf, _ := pgw.Decode(m)["wf"].(bool); !wf {
 				wireOK = false
 			}
+		}
+	}
+	if served3 != nil {
+		select {
+		case err := <-served3:
+			servedNil = servedNil && err == nil
+		case <-time.After(s.StepTimeout):
+			servedNil = false
 		}
 	}
 	lateOK := true
